@@ -9,6 +9,9 @@ commitments, independently of the model pool.
   committee <round> <members>            members: `w<id>`/`b<id>` comma separated, in order (`-` empty); resets
   commit <sigOk> <node> <sched> <round> <hash> <fail> <res> [MUTATED]  VerifyExecutorCommitment + Add...
         MUTATED: the serialized pool differs although the commitment was rejected
+  tx <res> <sigOk>,<node>,<sched>,<round>,<hash>,<fail> ...          one executorCommit transaction (real handler):
+        all commitments are admitted in order, or — on the first error `res` — none is (pool restored)
+  appcommittee <round> <members>         like `committee`; the harness keeps the pool in the application state
   rawadd <node> <sched> <round> <hash> <fail> <res>                  AddVerifiedExecutorCommitment only
   process <stragglers> <timeout> <disc> <res> [<node> <sched> <round> <hash> <fail>]
         disc: pool.Discrepancy after the call; on `ok` the returned sc.Commitment (`nil` if nil)
@@ -52,6 +55,15 @@ def parseEC (n s r h f : String) : Option EC := do
   let h ← h.toNat?
   let f ← parseBool f
   pure { node := n, sched := s, round := r, hash := h, failure := f }
+
+/-- `sigOk,node,sched,round,hash,fail` -/
+def parseTxCommit (s : String) : Option (Bool × EC) :=
+  match s.splitOn "," with
+  | [so, n, sc, r, h, f] => do
+    let so ← parseBool so
+    let e ← parseEC n sc r h f
+    pure (so, e)
+  | _ => none
 
 def showEC (e : EC) : String :=
   s!"{e.node}.{e.sched}.{e.round}.{e.hash}.{if e.failure then 1 else 0}"
@@ -161,6 +173,38 @@ def step (st : DSt) (line : String) : DSt × String :=
     match r.toNat?, parseCommittee ms with
     | some r, some c => ({ c := c, round := r }, "ok")
     | _, _ => diverge st "bad-op"
+  | ["appcommittee", r, ms] =>
+    match r.toNat?, parseCommittee ms with
+    | some r, some c => ({ c := c, round := r }, "ok")
+    | _, _ => diverge st "bad-op"
+  | "tx" :: res :: cms =>
+    match cms.mapM parseTxCommit with
+    | none => diverge st "bad-op"
+    | some cs =>
+      -- rule checks on an accepted transaction: every commitment was acceptable in its turn
+      let specBad : Option String :=
+        if res != "ok" then none else
+        (cs.foldl (fun (acc : DSt × Option String) (x : Bool × EC) =>
+          match acc with
+          | (s, some m) => (s, some m)
+          | (s, none) => match specAccept s x.2 "ok" with
+            | some m => (s, some m)
+            | none => ({ s with log := s.log ++ [x.2] }, none)) (st, none)).2
+      match specBad with
+      | some m => ({ st with dead := true }, "SPECFAIL " ++ m)
+      | none =>
+        let st1 := if res == "ok" then { st with log := st.log ++ cs.map (·.2) } else st
+        if st.dead then (st1, "skip") else
+        -- model: submit in order; the first error aborts the transaction and restores the pool
+        let r := cs.foldl (fun (acc : Pool × Option AddErr) (x : Bool × EC) =>
+          match acc with
+          | (p, some e) => (p, some e)
+          | (p, none) => submit st.c st.round p x.1 x.2) (st.pool, none)
+        let st2 := match r.2 with
+          | none => { st1 with pool := r.1 }
+          | some _ => st1
+        if errStr r.2 != res then diverge st2 s!"tx result model={errStr r.2} impl={res}"
+        else (st2, "ok")
   | "commit" :: so :: n :: s :: r :: h :: f :: res :: rest =>
     match parseBool so, parseEC n s r h f with
     | some so, some ec =>
